@@ -204,7 +204,7 @@ func TunedLeaf(rng *rand.Rand, t reflect.Type, rules string, pZero float64) refl
 		if n == 0 && rng.Intn(2) == 0 {
 			return v // nil slice
 		}
-		s := reflect.MakeSlice(t, n, n)
+		s := reflect.MakeSlice(t, n, n+(n*7+3)%4) // spare capacity of 0..3: the measure is the length, not the capacity
 		for i := 0; i < n; i++ {
 			e := s.Index(i)
 			switch e.Kind() {
